@@ -60,6 +60,13 @@ func (i *IFunc) Type() types.Type {
 		if !ok {
 			panic(fmt.Errorf("invalid resolver type of %q; expected *types.PointerType, got %T", i.Ident(), i.Resolver.Type()))
 		}
+		// The resolver is a function returning a pointer to the ifunc; the type
+		// of the ifunc is that pointer type.
+		if sig, ok := typ.ElemType.(*types.FuncType); ok {
+			if retType, ok := sig.RetType.(*types.PointerType); ok {
+				typ = retType
+			}
+		}
 		i.Typ = typ
 	}
 	return i.Typ
